@@ -102,6 +102,7 @@ func cmdRun(args []string) int {
 	noReplay := fs.Bool("no-replay", false, "skip native replay")
 	solverKind := fs.String("solver", "z3-new", "z3|z3-new|cvc5")
 	mapPerm := fs.Int("map-perm", 4, "max map entries under symbolic iteration order")
+	xcheck := fs.String("xcheck", "", "second solver for assertion queries: z3|cvc5")
 	orderPol := fs.Int("order-policies", 0, "global map-order policies per path instead of all permutations")
 	byteEnum := fs.Bool("byte-enum", false, "decide single-byte branch feasibility by enumeration")
 	fs.Parse(args)
@@ -116,7 +117,7 @@ func cmdRun(args []string) int {
 			ps = append(ps, n)
 		}
 	}
-	cfg := driver.Config{VerifDir: *verifDir, Repo: *repo, Workers: *workers, Tier: "quick", Seed: int64(envInt("VERIF_SEED", 1)), Debug: *debug, Solver: *solverKind}
+	cfg := driver.Config{VerifDir: *verifDir, Repo: *repo, Workers: *workers, Tier: "quick", Seed: int64(envInt("VERIF_SEED", 1)), Debug: *debug, Solver: *solverKind, XCheck: *xcheck}
 	if os.Getenv("GOSYM_SLOWLOG") != "" {
 		f, _ := os.Create(os.Getenv("GOSYM_SLOWLOG"))
 		solver.SlowLog = f
